@@ -77,6 +77,11 @@ def perms : List Eni → List (List Eni)
 
 def step (op : String) (args : List String) : Option String :=
   match op, args with
+  | "merge", [remote, current] => do
+    let r ← (list? remote ",").mapM entry?
+    let c ← (list? current ",").mapM entry?
+    -- a map has no order: sorted by address
+    pure (joinD "," (((mergeEntries r c).mergeSort fun a b => decide (a.ip ≤ b.ip)).map entryStr))
   | "loop", [_] => some "ok"   -- a closed-loop case of the harness (monitors only), replayed by its seed
   | "rel", [pods, rt, rec] => do
     pure (recordStr (release (← pods? pods) (← runtime? rt) (← record? rec)))
